@@ -370,9 +370,13 @@ def connect (sts : Sts) (s : St) (other : List (Name × List Fld)) : M St :=
     let (prev0, nested) := addMissing sts other.reverse (s.prev, false)
     -- `_remove_repeated` evaluates `el[1:] not in self.other_states` with `el` a list: unhashable
     if nested then .error (.crash .typeError)
-    else if s.prev.length > 1 || prev0.length > s.prev.length then do
-      let (s, prev) ← addStateHistory sts s prev0
-      return setTrees sts { s with prev := prev }
+    else if s.prev.length > 1 || prev0.length > s.prev.length then
+      -- `_remove_repeated`: every `_U` of the list must (still) be a connected state with a final splitter — not so on a
+      -- later run when `U`'s final splitter became empty once its `current_combiner_all` was known
+      if prev0.any (fun u => !(other.any fun p => p.1 == u)) then .error (.crash .pydraStateError)
+      else do
+        let (s, prev) ← addStateHistory sts s prev0
+        return setTrees sts { s with prev := prev }
     else .ok (setTrees sts { s with prev := prev0 })
 
 def addField (other : List (Name × List Fld)) (u : Name) (f : Fld) : List (Name × List Fld) :=
